@@ -43,6 +43,7 @@ type WireNil struct {
 	factsAt      map[ssa.Instruction]wfact
 	blockFacts   map[*ssa.BasicBlock]wfact
 	ensures      map[*ssa.Function]wfact
+	ensuresBool  map[*ssa.Function][2]wfact // predicate helpers: facts holding when the result is false / true
 	entryFacts   map[*ssa.Function]wfact
 	nilableParam map[*ssa.Parameter]bool
 	changed      bool
@@ -261,6 +262,21 @@ func (w *WireNil) substToCallee(callee *ssa.Function, site ssa.CallInstruction, 
 func (w *WireNil) condFacts(cond ssa.Value, takenTrue bool) []string {
 	var out []string
 	c, pol := normCond(cond, takenTrue)
+	if call, isCall := c.(*ssa.Call); isCall && isBoolType(call.Type()) {
+		// predicate helper: import what its outcome establishes about the arguments
+		idx := 0
+		if pol {
+			idx = 1
+		}
+		for _, callee := range w.callees(call) {
+			for f := range w.ensuresBool[callee][idx] {
+				if cp, ok := w.substToCaller(callee, call, f[3:]); ok {
+					out = append(out, f[:3]+cp)
+				}
+			}
+		}
+		return out
+	}
 	bo, ok := c.(*ssa.BinOp)
 	if !ok {
 		return nil
@@ -398,6 +414,77 @@ func (w *WireNil) computeEnsures(fn *ssa.Function) bool {
 	return len(old) != len(acc)
 }
 
+// computeEnsuresBool: for a function with a single boolean result, the facts about
+// parameter paths that hold on every path returning true, and on every path
+// returning false. The returned value is followed through phis (&& / || chains).
+func (w *WireNil) computeEnsuresBool(fn *ssa.Function) bool {
+	res := fn.Signature.Results()
+	if res.Len() != 1 || !isBoolType(res.At(0).Type()) || fn.Blocks == nil {
+		return false
+	}
+	var acc [2]wfact
+	seen := [2]bool{}
+	meet := func(idx int, f wfact) {
+		pf := wfact{}
+		for k := range f {
+			if strings.HasPrefix(k[3:], "p:") {
+				pf[k] = true
+			}
+		}
+		if !seen[idx] {
+			acc[idx], seen[idx] = pf, true
+			return
+		}
+		for k := range acc[idx] {
+			if !pf[k] {
+				delete(acc[idx], k)
+			}
+		}
+	}
+	var outcome func(v ssa.Value, at wfact, depth int)
+	outcome = func(v ssa.Value, at wfact, depth int) {
+		if k, isK := v.(*ssa.Const); isK && k.Value != nil && k.Value.Kind() == constant.Bool {
+			if constant.BoolVal(k.Value) {
+				meet(1, at)
+			} else {
+				meet(0, at)
+			}
+			return
+		}
+		if phi, isPhi := v.(*ssa.Phi); isPhi && depth < 6 {
+			for i, e := range phi.Edges {
+				outcome(e, w.blockFacts[phi.Block().Preds[i]], depth+1)
+			}
+			return
+		}
+		for idx, val := range []bool{false, true} {
+			f := wfact{}
+			for k := range at {
+				f[k] = true
+			}
+			for _, k := range w.condFacts(v, val) {
+				f[k] = true
+			}
+			meet(idx, f)
+		}
+	}
+	for _, b := range fn.Blocks {
+		ret, ok := b.Instrs[len(b.Instrs)-1].(*ssa.Return)
+		if !ok {
+			continue
+		}
+		outcome(ret.Results[0], w.blockFacts[b], 0)
+	}
+	for i := range acc {
+		if acc[i] == nil {
+			acc[i] = wfact{}
+		}
+	}
+	old := w.ensuresBool[fn]
+	w.ensuresBool[fn] = acc
+	return len(old[0]) != len(acc[0]) || len(old[1]) != len(acc[1])
+}
+
 func (w *WireNil) isWireNilableLoad(v ssa.Value) bool {
 	switch x := v.(type) {
 	case *ssa.UnOp:
@@ -452,7 +539,7 @@ var curStateNil *stateNil
 
 func RunWireNil(p *Prog, root *ssa.Function, cmdFunctionNonNil bool) *WireNil {
 	w := &WireNil{p: p, root: root, reach: map[*ssa.Function]bool{}, tainted: map[ssa.Value]bool{}, taintedField: map[string]bool{}, taintedParam: map[*ssa.Parameter]bool{}, taintedRet: map[*ssa.Function]bool{},
-		factsAt: map[ssa.Instruction]wfact{}, blockFacts: map[*ssa.BasicBlock]wfact{}, ensures: map[*ssa.Function]wfact{}, entryFacts: map[*ssa.Function]wfact{}, nilableParam: map[*ssa.Parameter]bool{}, CmdFunctionNonNil: cmdFunctionNonNil}
+		factsAt: map[ssa.Instruction]wfact{}, blockFacts: map[*ssa.BasicBlock]wfact{}, ensures: map[*ssa.Function]wfact{}, ensuresBool: map[*ssa.Function][2]wfact{}, entryFacts: map[*ssa.Function]wfact{}, nilableParam: map[*ssa.Parameter]bool{}, CmdFunctionNonNil: cmdFunctionNonNil}
 	w.sn = newStateNil(p)
 	curStateNil = w.sn
 	defer func() { curStateNil = nil }()
@@ -703,6 +790,9 @@ func RunWireNil(p *Prog, root *ssa.Function, cmdFunctionNonNil bool) *WireNil {
 		ch := false
 		for _, f := range fns {
 			if w.computeEnsures(f) {
+				ch = true
+			}
+			if w.computeEnsuresBool(f) {
 				ch = true
 			}
 		}
